@@ -471,35 +471,204 @@ fn t2(prop: &E1Prop, seed: u64, cases: u32, findings: &[Finding], rep: &mut Repo
     }
     let corpus: Vec<CorpusFile> = corpus::load().into_iter().filter(|f| f.source.len() <= 12_000).collect();
     let known: BTreeSet<String> = findings.iter().flat_map(|f| f.pairs.iter().cloned()).collect();
+    let build = |tape: &[u8], labels: &mut Vec<&'static str>| -> Option<(Case, String)> {
+        let mut t = Tape::new(tape);
+        let f = &corpus[t.pick_wide(corpus.len())];
+        let cat = catalogue(f.syntax);
+        let cfg = cat[t.pick(cat.len())];
+        let key = format!("{}|{}", f.name, cfg.label());
+        // a base pair that is excused by a known finding is not a base
+        if known.contains(&key) {
+            return None;
+        }
+        // files whose base pair is listed for any configuration carry comments in unsupported positions
+        if known.iter().any(|k| k.starts_with(&format!("{}|", f.name))) {
+            return None;
+        }
+        let mutated = mutate_with_comments(&f.source, f.syntax, &mut t, labels)?;
+        Some((Case::new(mutated, cfg), format!("{key}+comments")))
+    };
+    meta_tier(prop, seed, cases, "T2", "T2-corpus-mutation", 40, &build, rep, stats);
+}
+
+/// T3: a comment inserted into one gap between two code tokens whose *role* (comment form, bracket context, last
+/// structural keyword, neighbouring token classes) is in the calibrated allow list `domain/t3roles.allow`. The base is a
+/// generated comment-free program under a random configuration, or a pinned corpus file under a catalogue
+/// configuration.
+pub fn t3(prop: &E1Prop, seed: u64, cases: u32, findings: &[Finding], rep: &mut Reporter, stats: &mut Stats, all_roles: bool) {
+    if cases == 0 {
+        return;
+    }
+    let allow = load_t3_allow();
+    if allow.is_empty() && !all_roles {
+        stats.notes.push("T3: empty allow list, tier not run".into());
+        return;
+    }
+    let corpus: Vec<CorpusFile> = corpus::load().into_iter().filter(|f| f.source.len() <= 6_000).collect();
+    let known: BTreeSet<String> = findings.iter().flat_map(|f| f.pairs.iter().cloned()).collect();
+    let build = |tape: &[u8], labels: &mut Vec<&'static str>| -> Option<(Case, String)> {
+        let (case, key, role) = t3_build(tape, &corpus, &known, labels)?;
+        if !all_roles && !allow.contains(&role) {
+            return None;
+        }
+        Some((case, key))
+    };
+    meta_tier(prop, seed, cases, "T3", "T3-gap-comment", 400, &build, rep, stats);
+}
+
+pub fn load_t3_allow() -> BTreeSet<String> {
+    std::fs::read_to_string(verif_root().join("domain/t3roles.allow"))
+        .map(|s| s.lines().filter(|l| !l.starts_with('#') && !l.trim().is_empty()).map(|l| l.to_string()).collect())
+        .unwrap_or_default()
+}
+
+const KEYWORDS: [&str; 26] = [
+    "and", "break", "do", "else", "elseif", "end", "false", "for", "function", "goto", "if", "in", "local", "nil", "not", "or", "repeat", "return", "then", "true",
+    "until", "while", "continue", "type", "export", "typeof",
+];
+
+fn tok_class(t: &crate::lex::Tok, src: &str) -> String {
+    use crate::lex::Kind;
+    match t.kind {
+        Kind::Name => {
+            let x = t.text(src);
+            if KEYWORDS.contains(&x) {
+                x.to_string()
+            } else {
+                "Name".into()
+            }
+        }
+        Kind::Number => "Num".into(),
+        Kind::Quoted(_) | Kind::LongStr(_) => "Str".into(),
+        Kind::Interp => "Interp".into(),
+        Kind::Sym => t.text(src).to_string(),
+        _ => "?".into(),
+    }
+}
+
+/// (byte offset behind the left token, role without the form) for every gap between two code tokens that holds
+/// nothing but blanks
+pub fn gap_roles(src: &str, syn: Syntax) -> Option<Vec<(usize, String)>> {
+    use crate::lex::Kind;
+    let toks = crate::lex::lex(src, syn).ok()?;
+    let mut out = Vec::new();
+    let mut stack: Vec<&'static str> = Vec::new();
+    let mut head = String::from("^");
+    let mut prev: Option<(crate::lex::Tok, String)> = None;
+    let mut clean_gap = true;
+    for t in &toks {
+        if t.kind.is_trivia() {
+            if t.kind.is_comment() {
+                clean_gap = false;
+            }
+            continue;
+        }
+        let cls = tok_class(t, src);
+        if let Some((p, pcls)) = &prev {
+            if clean_gap && p.kind != Kind::Interp && t.kind != Kind::Interp {
+                let ctx = stack.last().copied().unwrap_or("top");
+                out.push((p.end, format!("{ctx}|{head}|{pcls}|{cls}")));
+            }
+        }
+        // update the context with this token
+        match cls.as_str() {
+            "(" => {
+                let kind = match prev.as_ref().map(|(_, c)| c.as_str()) {
+                    Some("function") => "params(",
+                    Some("Name") if head == "function" && stack.is_empty() => "params(",
+                    Some("Name") | Some(")") | Some("]") | Some("Str") | Some("}") => "call(",
+                    _ => "paren(",
+                };
+                stack.push(kind);
+            }
+            "{" => stack.push("{"),
+            "[" => stack.push("["),
+            ")" | "}" | "]" => {
+                stack.pop();
+            }
+            "local" | "return" | "if" | "elseif" | "while" | "for" | "in" | "until" | "function" | "type" | "then" | "do" | "else" | "repeat" | "end" | "=" => {
+                head = cls.clone();
+            }
+            _ => {}
+        }
+        prev = Some((*t, cls));
+        clean_gap = true;
+    }
+    Some(out)
+}
+
+/// builds a T3 case from a tape: (case, origin key, role)
+pub fn t3_build(tape: &[u8], corpus: &[CorpusFile], known: &BTreeSet<String>, labels: &mut Vec<&'static str>) -> Option<(Case, String, String)> {
+    let mut t = Tape::new(tape);
+    let form = t.pick(4);
+    let gap_sel = t.pick_wide(4096);
+    let (src, cfg, key) = if t.chance(96) {
+        let f = &corpus[t.pick_wide(corpus.len())];
+        let cat = catalogue(f.syntax);
+        let cfg = cat[t.pick(cat.len())];
+        let key = format!("{}|{}", f.name, cfg.label());
+        if known.contains(&key) || known.iter().any(|k| k.starts_with(&format!("{}|", f.name))) {
+            return None;
+        }
+        labels.push("t3:corpus-base");
+        (f.source.clone(), cfg, key)
+    } else {
+        let syn = syntax_of_tape(&mut t);
+        let cfg = gen_cfg(&mut t, syn);
+        let g = generate(&mut t, syn, GenOpts::plain());
+        labels.push("t3:generated-base");
+        (g.source, cfg, "generated".to_string())
+    };
+    let gaps = gap_roles(&src, cfg.syntax)?;
+    if gaps.is_empty() {
+        return None;
+    }
+    let (at, role) = &gaps[gap_sel * gaps.len() / 4096];
+    let (text, fname) = match form {
+        0 => (" --[[ gap ]] ".to_string(), "block"),
+        1 => (" -- gap\n".to_string(), "line"),
+        2 => ("\n-- gap\n".to_string(), "ownline"),
+        _ => (" --[==[ gap\n  second ]==] ".to_string(), "mblock"),
+    };
+    labels.push(match form {
+        0 => "t3:block",
+        1 => "t3:line",
+        2 => "t3:own-line",
+        _ => "t3:multi-line-block",
+    });
+    let mut out = String::with_capacity(src.len() + 32);
+    out.push_str(&src[..*at]);
+    out.push_str(&text);
+    out.push_str(&src[*at..]);
+    // the mutated text must still be a program of the syntax
+    crate::engine::guarded(|| crate::norm::parse(&out, cfg.syntax)).ok()?.ok()?;
+    Some((Case::new(out, cfg), format!("{key}+gap"), format!("{fname}|{role}")))
+}
+
+#[allow(clippy::too_many_arguments)]
+fn meta_tier(
+    prop: &E1Prop,
+    seed: u64,
+    cases: u32,
+    tier_name: &'static str,
+    count_name: &'static str,
+    tape_len: usize,
+    build: &(dyn Fn(&[u8], &mut Vec<&'static str>) -> Option<(Case, String)> + Sync),
+    rep: &mut Reporter,
+    stats: &mut Stats,
+) {
     let workers = num_workers();
     let per = (cases as usize + workers - 1) / workers;
     let results = par_workers(workers, |w| {
         let st = RefCell::new(Stats::default());
         let failed = RefCell::new(false);
-        let mut r = runner(seed, &format!("{}-T2", prop.id), w, per as u32);
-        let strat = proptest::collection::vec(any::<u8>(), 0..40);
-        let build = |tape: &[u8], labels: &mut Vec<&'static str>| -> Option<(Case, String)> {
-            let mut t = Tape::new(tape);
-            let f = &corpus[t.pick_wide(corpus.len())];
-            let cat = catalogue(f.syntax);
-            let cfg = cat[t.pick(cat.len())];
-            let key = format!("{}|{}", f.name, cfg.label());
-            // a base pair that is excused by a known finding is not a base
-            if known.contains(&key) {
-                return None;
-            }
-            // files whose base pair is listed for any configuration carry comments in unsupported positions
-            if known.iter().any(|k| k.starts_with(&format!("{}|", f.name))) {
-                return None;
-            }
-            let mutated = mutate_with_comments(&f.source, f.syntax, &mut t, labels)?;
-            Some((Case::new(mutated, cfg), key))
-        };
+        let mut r = runner(seed, &format!("{}-{tier_name}", prop.id), w, per as u32);
+        let strat = proptest::collection::vec(any::<u8>(), 0..tape_len);
         let res = r.run(&strat, |tape| {
             let mut labels = Vec::new();
             let Some((case, _key)) = build(&tape, &mut labels) else {
                 if !*failed.borrow() {
-                    st.borrow_mut().skip("T2: no base / no insertion point");
+                    st.borrow_mut().skip(if tier_name == "T2" { "T2: no base / no insertion point" } else { "T3: no base / role not in the allow list" });
                 }
                 return Ok(());
             };
@@ -513,7 +682,7 @@ fn t2(prop: &E1Prop, seed: u64, cases: u32, findings: &[Finding], rep: &mut Repo
             let v = match crate::engine::guarded(|| (prop.oracle)(&case, &out, ticks)) {
                 Ok(v) => v,
                 Err(p) => {
-                    st.borrow_mut().notes.push(format!("HARNESS-PANIC in oracle (T2): {p}"));
+                    st.borrow_mut().notes.push(format!("HARNESS-PANIC in oracle ({tier_name}): {p}"));
                     return Ok(());
                 }
             };
@@ -522,7 +691,7 @@ fn t2(prop: &E1Prop, seed: u64, cases: u32, findings: &[Finding], rep: &mut Repo
                 Verdict::Pass { nontrivial } => {
                     if counting {
                         let mut s = st.borrow_mut();
-                        s.count("T2-corpus-mutation");
+                        s.count(count_name);
                         if nontrivial {
                             s.nontrivial.insert(case.hash64());
                         }
@@ -566,7 +735,7 @@ fn t2(prop: &E1Prop, seed: u64, cases: u32, findings: &[Finding], rep: &mut Repo
     for (s, failure) in results {
         stats.merge(s);
         if let Some((case, reason, key)) = failure {
-            rep.violation(replay_value(prop.id, &case, &reason, &format!("T2:{key}+comments")), "T2");
+            rep.violation(replay_value(prop.id, &case, &reason, &format!("{tier_name}:{key}")), tier_name);
         }
     }
 }
